@@ -29,6 +29,7 @@ func NewEncoder(w io.Writer) (d *Encoder) {
 func (d *Encoder) Reset() {
 	d.stack = d.stack[0:0]
 	d.current = phase_anyExpectValue
+	d.w.clearErr() // a write failure belongs to the item it interrupted, not to the next one
 }
 
 type encoderPhase byte
